@@ -152,8 +152,8 @@ class BlockDownloadServer:
         data = self.data[:max(total, 0)]
         if self.declared is not None:
             self._p(self.declared == total, "declared-size-equals-sent")
-            if not bool(self.declared == total):
-                ok = False
+            if not bool(self.declared == total) and getattr(self, "strict_size", True):
+                ok = False           # (checking the received length against the declared size is optional for a server)
         if self.crc_on:
             got = f[1] | (f[2] << 8)
             want = crc16(data)
